@@ -437,24 +437,24 @@ pub fn replay(prop: &str, path: &str) -> i32 {
             if let Some(m) = short.as_object_mut() {
                 m.remove("output");
             }
-            println!("{}", serde_json::to_string_pretty(&short).unwrap());
+            crate::say!("{}", serde_json::to_string_pretty(&short).unwrap());
             let failed = v["status"] != "ok" || v["results"][prop]["viol"].as_array().map(|x| !x.is_empty()).unwrap_or(false);
             if failed {
-                println!("VIOLATION property={} replay={}", prop, path);
+                crate::say!("VIOLATION property={} replay={}", prop, path);
                 1
             } else {
-                println!("replay passes");
+                crate::say!("replay passes");
                 0
             }
         }
         Outcome::Hang => {
-            println!("no answer within the horizon");
-            println!("VIOLATION property={} replay={}", prop, path);
+            crate::say!("no answer within the horizon");
+            crate::say!("VIOLATION property={} replay={}", prop, path);
             1
         }
         Outcome::Crash(s) => {
-            println!("worker died: {}", s);
-            println!("VIOLATION property={} replay={}", prop, path);
+            crate::say!("worker died: {}", s);
+            crate::say!("VIOLATION property={} replay={}", prop, path);
             1
         }
     }
